@@ -44,21 +44,30 @@ RootKind == IF buf[1] = 64 THEN "O" ELSE "A"
 Hx(bs) == F!HexStr(bs)
 CapStr(cap) == IF cap < 0 THEN "N" ELSE ToString(cap)
 
+\* a double outside the %f table (only mutated documents can contain one): text unknown
+RECURSIVE Known(_)
+Known(vt) == IF vt.t = "double" THEN vt.v \in R!FmtKnown
+             ELSE \A i \in 1..Len(vt.kids) : Known(vt.kids[i].vt)
+
 \* one (document, capacity) behaviour
 Eval(doc, cap) ==
-  LET i0 == PI!InitP(RootKind, doc, ParserMaxD)
+  LET pz == F!Parse(doc, RootKind, ParserMaxD)
+      known == ~pz.ok \/ Known(F!ToVT(doc, pz.node))
+      i0 == PI!InitP(RootKind, doc, ParserMaxD)
       vr == IF i0.ok THEN PI!Verify(i0.P, doc) ELSE [ret |-> FALSE, evs |-> <<>>]
       im == TS!ToStr(vr, doc, cap)
       a  == R!ToStringA(doc, RootKind, ParserMaxD, cap)
       c  == IF cap < 0 THEN 0 ELSE cap
-      ok == /\ im.ret = a.ret
+      ok == ~known \/
+            /\ im.ret = a.ret
             /\ a.sizeKnown => im.size = a.size
             /\ im.maxStore <= c                                        \* C13: nothing at or beyond the capacity
             /\ a.ret => SubSeq(im.mem, 1, a.size + 1) = a.text \o <<0>>   \* text followed by NUL
             /\ a.sizeKnown => TS!PrintRun(0, vr.evs, 1, doc) = a.text   \* C14: print, byte for byte
       line == "TBEH " \o RootKind \o " " \o ToString(ParserMaxD) \o " " \o Hx(doc) \o " | cap=" \o CapStr(cap)
-              \o " | ret=" \o (IF a.ret THEN "1" ELSE "0") \o " size=" \o (IF a.sizeKnown THEN ToString(a.size) ELSE "x")
-              \o " text=" \o (IF a.sizeKnown THEN Hx(a.text) ELSE "x") \o " ms=" \o ToString(im.maxStore)
+              \o " | ret=" \o (IF a.ret THEN "1" ELSE "0") \o " size=" \o (IF ~known THEN "u" ELSE IF a.sizeKnown THEN ToString(a.size) ELSE "x")
+              \o " text=" \o (IF ~known THEN "u" ELSE IF a.sizeKnown THEN Hx(a.text) ELSE "x")
+              \o " ms=" \o (IF known /\ a.sizeKnown THEN ToString(im.maxStore) ELSE "x")
   IN [ok |-> ok, line |-> line]
 
 Need(doc) == LET a == R!ToStringA(doc, RootKind, ParserMaxD, -1) IN IF a.sizeKnown THEN a.size ELSE 3
